@@ -83,7 +83,21 @@ pub fn op_place(args: &[Sexp], retry: bool) -> String {
             decoy_ptr = Some(lib.cells.add(decoy));
         }
         let mut top = t::layout::Layout::new("top", 0, t::outline::Outline::rect(1000, 1000).ok()?);
-        for i in &insts { top.instances.push(i.clone()); }
+        // retried placements, every other case: an array instance (three copies of cell 0, far away from everything) stands
+        // FIRST in `places` and the instances follow it there (`places` may hold plain instances too), so that the array is
+        // expanded before the placement that fails; it must come out expanded exactly once after the retry
+        let with_array = retry && specs.len() % 2 == 0 && !cells.is_empty();
+        let mk_array = || -> Placeable {
+            let arr = Ptr::new(Array { name: "arr".into(), unit: Arrayable::Instance(cells[0].clone()), count: 3,
+                sep: Separation::new(Some(SepBy::UnitSpeced(UnitSpeced::PrimPitches(PrimPitches::x(40)))), None, None) });
+            Placeable::Array(Ptr::new(ArrayInstance { name: "a".into(), array: arr, loc: (700isize, 700isize).into(), reflect_horiz: false, reflect_vert: false }))
+        };
+        if with_array {
+            top.places.push(mk_array());
+            for i in &insts { top.places.push(Placeable::Instance(i.clone())); }
+        } else {
+            for i in &insts { top.instances.push(i.clone()); }
+        }
         // every other case, the cell holding the placements is NOT registered in the library: it is
         // reachable only through an instance of a registered outer cell (as the crate's own ring
         // oscillator examples build their unit cells) and must be placed all the same
@@ -108,7 +122,19 @@ pub fn op_place(args: &[Sexp], retry: bool) -> String {
                     let mut c = cell.write().unwrap();
                     if let Some(ly) = c.layout.as_mut() { ly.instances = Default::default(); ly.places.clear(); for i in list { ly.instances.push(i.clone()); } }
                 };
-                refill(&topptr, &insts);
+                if with_array {
+                    // the user looks at what the failed call left: an emptied layout is filled again as it was built; a layout
+                    // that still holds its content is simply placed again
+                    let mut c = topptr.write().unwrap();
+                    if let Some(ly) = c.layout.as_mut() {
+                        if ly.instances.iter().next().is_none() && ly.places.is_empty() {
+                            ly.places.push(mk_array());
+                            for i in &insts { ly.places.push(Placeable::Instance(i.clone())); }
+                        }
+                    }
+                } else {
+                    refill(&topptr, &insts);
+                }
                 if let Some(d) = &decoy_ptr { refill(d, &decoy_insts); }
                 if let Some((o, mi)) = &outer_ptr { refill(o, &vec![mi.clone()]); }
             }
@@ -122,6 +148,14 @@ pub fn op_place(args: &[Sexp], retry: bool) -> String {
                 let mut v = vec![];
                 let mut listed: Vec<Ptr<Instance>> = ly.instances.iter().cloned().collect();
                 if retry { listed.sort_by_key(|i| i.read().unwrap().inst_name.parse::<usize>().unwrap_or(usize::MAX)); }
+                // the copies of the array: exactly `count` of them, at successive multiples of the pitch
+                let copies: Vec<(isize, isize)> = listed.iter().filter(|i| i.read().unwrap().inst_name.parse::<usize>().is_err())
+                    .filter_map(|i| i.read().unwrap().loc.abs().ok().map(|xy| (xy.x.num, xy.y.num))).collect();
+                listed.retain(|i| i.read().unwrap().inst_name.parse::<usize>().is_ok());
+                if with_array {
+                    let mut c = copies.clone(); c.sort();
+                    if c != vec![(700, 700), (740, 700), (780, 700)] { v.push(format!("(array-copies {:?})", copies).replace(',', "")); }
+                } else if !copies.is_empty() { v.push("(stray-instances)".into()); }
                 for i in listed.iter() {
                     let i = i.read().unwrap();
                     match &i.loc { Place::Abs(xy) => v.push(format!("({} {} {} {} {})", i.inst_name, xy.x.num, xy.y.num, of_bool(i.reflect_horiz), of_bool(i.reflect_vert))), Place::Rel(_) => v.push(format!("({} rel)", i.inst_name)) }
@@ -205,6 +239,8 @@ pub fn oracle(line: &str) -> String {
             }
             let res = crate::ops::run_line(line);
             if cyclic { return if res == "err" { "pass".into() } else { format!("fail cyclic relations placed: {}", &res[..res.len().min(80)]) }; }
+            if res.contains("(array-copies") { return format!("fail after a failed placement and a retry the array is not expanded to exactly its count copies at multiples of its pitch: {}", &res[..res.len().min(160)]); }
+            if res.contains("(stray-instances)") { return "fail the placed layout holds instances nobody asked for".into(); }
             let lst = match Sexp::parse_all(&res) { Some(r) if r.len() == 2 && r[0].atom() == Some("ok") => r[1].list().unwrap().to_vec(), _ => return format!("fail placement of an acyclic program failed: {}", res) };
             let mut loc: Vec<Option<(i64, i64)>> = vec![None; n];
             for e in &lst { let e = e.list().unwrap(); if e.len() != 5 { return "fail instance left without an absolute location".into(); } let i = e[0].int().unwrap() as usize; if loc[i].is_some() { return "fail instance placed twice".into(); } loc[i] = Some((e[1].int().unwrap(), e[2].int().unwrap())); }
